@@ -323,3 +323,9 @@ func zzSamePath(got, want string) bool {
 	}
 	return a == b
 }
+
+// ---- display-width abstraction: natively the real functions ----
+func zzWidthMode()                    {}
+func zzWidth(s string) int            { return visibleLen(s) }
+func zzStrip(s string) string         { return stripANSICodes(s) }
+func zzTruncUF(s string, w int) string { return truncateToWidth(s, w) }
